@@ -176,6 +176,7 @@ func c03Configs() []CfgLit {
 		{Origins: disc, ResponseHeaders: []string{"X-R", "Content-Type", "x-q"}, MaxAge: -1, Methods: []string{"PUT"}, RequestHeaders: []string{"X-A"}, TolPSL: true},
 		{Origins: disc, Credentialed: true, ResponseHeaders: []string{"X-R"}, MaxAge: 30, Methods: []string{"PUT"}, RequestHeaders: []string{"X-A"}, TolInsecure: true, TolPSL: true},
 		{Origins: disc, PNA: true, ResponseHeaders: []string{"*"}, Methods: []string{"*"}, RequestHeaders: []string{"*"}, TolInsecure: true, TolPSL: true},
+		{Origins: []string{"https://a.b", "*", "https://*.a.b"}, ResponseHeaders: []string{"X-R"}, Methods: []string{"PUT"}, RequestHeaders: []string{"X-A"}},
 		{Origins: disc, Credentialed: true, PNANoCORS: true, ResponseHeaders: []string{"X-R"}, MaxAge: 30, Methods: []string{"*"}, RequestHeaders: []string{"*"}, TolInsecure: true, TolPSL: true, Status: 200},
 	}
 }
